@@ -255,9 +255,50 @@ def check_cmp(r, case, op, A, B, impl):
 
 
 OPS_FILTER = ("f_abs", "f_int", "f_float", "f_round", "f_sum", "t_odd", "t_even", "t_divby")
-OPS_MORE = ("f_min", "f_max", "f_concat", "f_range", "f_rangelen", "f_rangestep", "f_batchlen", "f_fsize",
+OPS_MORE = ("f_min", "f_max", "f_sortfirst", "f_sortlast", "f_rsortfirst", "f_uniquelen", "f_in", "f_concat", "f_range", "f_rangelen", "f_rangestep", "f_batchlen", "f_fsize",
             "f_trunc", "f_indent", "f_strint", "f_strfloat", "f_roundp")
 I64_MIN, I64_MAX = -(1 << 63), (1 << 63) - 1
+TEST_NAMES = {"eq": "eq", "equalto": "eq", "==": "eq", "ne": "ne", "!=": "ne", "lt": "lt", "lessthan": "lt", "<": "lt",
+              "le": "le", "<=": "le", "gt": "gt", "greaterthan": "gt", ">": "gt", "ge": "ge", ">=": "ge"}
+
+
+def check_chain(r, case, op, opds, impl):
+    """`a OP1 b OP2 c ...` must be the conjunction of its links (exact comparisons of the values)"""
+    res = split_impl(impl)[0]
+    ops = op.split(":", 1)[1].split(",")
+    if res == "panic":
+        r.oracle_failure(case, "panic", "chain:panic")
+        return "panic"
+    if any(o in ("in", "notin") for o in ops):
+        # a list takes part: judged by the metamorphic relation only (harness: `|conj=`)
+        return "metamorphic"
+    want = all(cmp_exact(o, opds[i][1], opds[i + 1][1]) for i, o in enumerate(ops))
+    if res != ("b:1" if want else "b:0"):
+        first_bad = next((i for i, o in enumerate(ops) if not cmp_exact(o, opds[i][1], opds[i + 1][1])), None)
+        pos = "final" if (first_bad if first_bad is not None else len(ops) - 1) == len(ops) - 1 else "inner"
+        r.oracle_failure(case, f"chain gives {res}, the conjunction of the exact comparisons is {want}", f"chain:wrong-value:{pos}-link")
+        return "bad"
+    return "exact"
+
+
+def check_impl(r, case, op, A, B, impl):
+    """tests `is <name>`, select / reject / selectattr with a test name: the same answer as the operator"""
+    res = split_impl(impl)[0]
+    kind, name = op.split(":", 1)
+    if res == "panic":
+        r.oracle_failure(case, "panic", f"impl:{kind}:panic")
+        return "panic"
+    truth = cmp_exact(TEST_NAMES[name], A[1], B[1])
+    if kind == "is":
+        want = "b:1" if truth else "b:0"
+    elif kind == "rej":
+        want = "i:0" if truth else "i:1"
+    else:
+        want = "i:1" if truth else "i:0"
+    if res != want:
+        r.oracle_failure(case, f"returned {res}, the operator {TEST_NAMES[name]} gives {truth}", f"impl:{kind}:{TEST_NAMES[name]}")
+        return "bad"
+    return "exact"
 
 
 def split_impl(impl):
@@ -266,7 +307,7 @@ def split_impl(impl):
     res, extra = parts[0], {}
     for p in parts[1:]:
         tag, _, v = p.partition("=")
-        if tag == "render" or tag == "runtime" or tag.startswith("embed"):
+        if tag in ("render", "runtime", "conj", "conjrt") or tag.startswith("embed"):
             extra[tag] = v
         else:                      # a `|` inside a value
             res = res if not extra else res
@@ -287,6 +328,9 @@ def check_consistency(r, case, op, impl):
             continue               # reported by the stream's own check
         if tag == "runtime":
             r.oracle_failure(case, f"constant folding gives {res}, the run-time operator gives {v}", "consistency:folded-vs-runtime")
+        elif tag in ("conj", "conjrt"):
+            r.oracle_failure(case, f"the chained comparison gives {res}, the conjunction of its links gives {v}"
+                             + (" (run-time operands)" if tag == "conjrt" else ""), "chain:not-the-conjunction")
         else:
             r.oracle_failure(case, f"Expression::eval displays {res}, embedding {tag[5:]} prints {v!r}", f"consistency:embedding:{tag[5:]}")
     return res
@@ -319,12 +363,27 @@ def check_more(r, case, op, A, B, impl):
     def text():
         return bytes.fromhex(res[2:]).decode("utf-8") if res.startswith("s:") else None
 
-    if op in ("f_min", "f_max"):
+    if op == "f_uniquelen":
+        want = 1 if A[1] == B[1] else 2
+        if res != "i:%d" % want:
+            r.oracle_failure(case, f"unique keeps {res} items, the values are {'equal' if want == 1 else 'different'}", "func:unique:wrong-value")
+            return "bad"
+        return "exact"
+    if op == "f_in":
+        want = A[1] == B[1]
+        if res != ("b:1" if want else "b:0"):
+            r.oracle_failure(case, f"`a in [b]` gives {res}, a == b is {want}", "func:in:wrong-value")
+            return "bad"
+        return "exact"
+    if op in ("f_min", "f_max", "f_sortfirst", "f_sortlast", "f_rsortfirst"):
+        infs = (float("inf"), float("-inf"))
+        if A[1] in infs or B[1] in infs:
+            return "unconstrained"
         vals = [Fraction(X[1]) for X in (A, B)]
-        want = min(vals) if op == "f_min" else max(vals)
+        want = min(vals) if op in ("f_min", "f_sortfirst") else max(vals)
         got = as_exact(res)
         if got is None or got != want:
-            r.oracle_failure(case, f"returned {res}, the exact {'minimum' if op == 'f_min' else 'maximum'} is {want}", f"func:{name}:wrong-value")
+            r.oracle_failure(case, f"returned {res}, the exact {'minimum' if op in ('f_min', 'f_sortfirst') else 'maximum'} is {want}", f"func:{name}:wrong-value")
             return "bad"
         return "exact"
     if op == "f_concat":
@@ -548,7 +607,7 @@ def py_spec(case):
     """the exact-integer verdict in the same notation as the Lean driver's third column"""
     f = case.split(" ")
     op = f[0]
-    if op == "lex":
+    if op == "lex" or op not in OPS_BIN + ("neg",):
         return "-"
     A = parse_operand(f[1])
     B = parse_operand(f[2]) if len(f) > 2 else None
@@ -579,12 +638,19 @@ def judge_core(case, impl):
     c = _Collect()
     f = case.split(" ")
     op = f[0]
-    A = parse_operand(f[1])
-    B = parse_operand(f[2]) if len(f) > 2 else None
+    opds = [parse_operand(t) for t in f[1:]]
+    A = opds[0]
+    B = opds[1] if len(opds) > 1 else None
     allint = A[0] == "i" and (B is None or B[0] == "i")
     key = None
     check_consistency(c, case, op, impl)
-    if op in OPS_MORE:
+    if op.startswith("chain:"):
+        stream = "chain"
+        out = check_chain(c, case, op, opds, impl)
+    elif op.split(":")[0] in ("is", "sel", "rej", "selattr"):
+        stream = "impl"
+        out = check_impl(c, case, op, A, B, impl)
+    elif op in OPS_MORE:
         stream = "func"
         out = check_more(c, case, op, A, B, impl)
         if A[0] == "i" and (B is None or B[0] == "i"):
@@ -670,7 +736,10 @@ def run(r):
     r.rule = ("boundary zoo (0, +-1, +-2^31, +-2^53+-1, +-2^63+-1, 2^64+-1, +-2^127+-1, 2^128-1, ...) squared x 6 binary operators "
               "x literal and i64/u64/i128/u128 variable forms, unary minus on the zoo in every form, random pairs biased to the "
               "2^63/2^64/2^127/2^128 neighbourhoods (half targeted so that the exact result lands within 2 of an overflow edge), "
-              "comparisons int/int, int/float, float/float, and // and % with float operands; every literal also re-spelled "
+              "comparisons int/int, int/float, float/float, chained comparisons of length 3 and 4 (all 36 operator pairs on equal / "
+              "ordered operand patterns, every comparison case as first / middle link, in / not in links; variables, literals and "
+              "mixes) against the conjunction of their links, the tests is eq/ne/lt/le/gt/ge and select/reject/selectattr under all "
+              "15 registered names, min/max/sort/unique/in, and // and % with float operands; every literal also re-spelled "
               "(hex/octal/binary with either prefix case, `_` separators, leading zeros, bare or parenthesised minus, floats in "
               "exponent / .0 notation) with all spellings of the same operands required to agree; the tokenizer alone on those "
               "spellings, edge texts and random texts against the Lean model of eat_number; bool / i8..u32 / isize / usize / "
@@ -679,7 +748,7 @@ def run(r):
     r.assumptions = ["Rust's i128::checked_add/sub/mul/pow/div_euclid/rem_euclid return the exact result or None (std contract)",
                      "IEEE-754 binary64 +, -, /, fmod, trunc, round are the exact result rounded to nearest-even (the Lean float model encodes exactly that; validated bit-for-bit against the engine on every float case)",
                      "f64::from_str is correctly rounded (float literal values and the float filter on strings are judged against Python's float())"]
-    r.regen_tables(needed=["C08_NEG_SPECIAL", "C08_INT_METHODS", "C08_LEX_RADIX"])
+    r.regen_tables(needed=["C08_NEG_SPECIAL", "C08_INT_METHODS", "C08_LEX_RADIX", "C08_COMPARE_ARMS"])
     r.lean_prove("MJ.Props.C08", "MJ/Audit/C08.lean", extra_targets=["drive_c08"])
     exe = r.cargo_build("c08")
     if exe is None:
